@@ -7,3 +7,4 @@ INFO = {'not_decided': ['correspondence of diagnostics order (follows region reg
         'stated_lemmas': ['positions are consulted only through Location.__lt__, bisect, insort, get_expr_end, get_first_body_node_loc and np '
                           '(frame scan): an obligation discharged with symbolic positions constrained only by token order holds for every layout'],
         'trusted': []}
+import contracts.composition  # noqa
